@@ -17,7 +17,7 @@ func init() {
 	register("C18", checkC18)
 	describe("C18", Meta{
 		Technique: "skeleton extraction from the HDL string builders (literal text with holes) plus three structural rules: declare-once groups (OnlyOne guard lists agree across the group and no member declares the shared identifier unguarded), identifier/driver consistency of self-contained module generators, and index-space discipline (processor vs domain vs shared-object index) across the three module levels",
-		Claim:     "Decides structural clauses of C18 on the generators (no Verilog tool exists in the sandbox): (G) for every helper register declared under an arch.OnlyOne guard, every opcode of the guard list carries the same guarded declaration with the same list, the declaring opcode is in its own list, and no other opcode declares the same identifier unconditionally — so the identifier is declared exactly once for every opcode subset that contains a user; (M) in every generator that emits a whole module (module … endmodule in one function), every literal identifier used as a clock in an event control, or as the target of a procedural or continuous assignment, is declared in that module, and no register is assigned in two always blocks that can be emitted together; (K) the module, instance and wrapper generators index processors, domains and shared objects in their own index spaces (a processor index used as a domain index yields mismatched port lists). The two other declare-once idioms are decided too: an opcode that leaves declarations to another opcode (deference loop over arch.Op) relies on that opcode declaring each identifier in the same method, and all users of one Runinfo.Check flag guard the same declarations. Necessary conditions only: syntax of arbitrary configurations, widths, and identifiers spelled through holes that the patterns cannot relate are not decided.",
+		Claim:     "Decides structural clauses of C18 on the generators (no Verilog tool exists in the sandbox): (G) for every helper register declared under an arch.OnlyOne guard, every opcode of the guard list carries the same guarded declaration with the same list, the declaring opcode is in its own list, and no other opcode declares the same identifier unconditionally — so the identifier is declared exactly once for every opcode subset that contains a user; (M) in every generator that emits a whole module (module … endmodule in one function), every literal identifier used as a clock in an event control, or as the target of a procedural or continuous assignment, is declared in that module, and no register is assigned in two always blocks that can be emitted together; (K) the module, instance and wrapper generators index processors, domains and shared objects in their own index spaces (a processor index used as a domain index yields mismatched port lists). (PORTS) for every shared-object kind and opcode-presence condition, the port names in the module header equal the names the architecture and processor modules declare, the number of ports equals the number of wires the top level connects by position, and those wires are declared. The two other declare-once idioms are decided too: an opcode that leaves declarations to another opcode (deference loop over arch.Op) relies on that opcode declaring each identifier in the same method, and all users of one Runinfo.Check flag guard the same declarations. Necessary conditions only: syntax of arbitrary configurations, widths, and identifiers spelled through holes that the patterns cannot relate are not decided.",
 		Note:      "Holes (non-literal parts of a concatenation) match any identifier fragment; a verdict 'undeclared' is only issued for fully literal identifiers in modules whose declarations contain no bare hole.",
 		DesignRef: "DESIGN.md §2 C18",
 	})
@@ -31,6 +31,7 @@ func checkC18(r *core.Run) {
 		return
 	}
 	c18Groups(r, prog)
+	c18Ports(r, prog)
 	c18Modules(r, prog)
 	// K
 	e := newIKEngine(r, prog, "C18")
@@ -121,6 +122,25 @@ func appendedText(info *types.Info, n ast.Node) []struct {
 		pos  token.Pos
 	}
 	ast.Inspect(n, func(m ast.Node) bool {
+		if ret, ok := m.(*ast.ReturnStmt); ok {
+			// text returned directly (`return "\treg cmpflag;\n"`)
+			for _, res := range ret.Results {
+				if _, isID := ast.Unparen(res).(*ast.Ident); isID {
+					continue
+				}
+				if t := info.TypeOf(res); t != nil {
+					if b, ok := t.Underlying().(*types.Basic); ok && b.Info()&types.IsString != 0 {
+						if sk := skeletonOf(info, res); sk != "" {
+							out = append(out, struct {
+								text string
+								pos  token.Pos
+							}{sk, ret.Pos()})
+						}
+					}
+				}
+			}
+			return true
+		}
 		as, ok := m.(*ast.AssignStmt)
 		if !ok || len(as.Lhs) != 1 || len(as.Rhs) != 1 {
 			return true
@@ -248,6 +268,39 @@ func c18Groups(r *core.Run, prog *core.Program) {
 			return
 		}
 		guardedRanges := [][2]token.Pos{}
+		// guard-clause form: `if !arch.OnlyOne(name, list) { return … }` at the top level of the method —
+		// everything after it is the guarded block
+		for i, st := range fd.Body.List {
+			ifs, ok := st.(*ast.IfStmt)
+			if !ok || ifs.Else != nil || len(ifs.Body.List) == 0 {
+				continue
+			}
+			if _, isRet := ifs.Body.List[len(ifs.Body.List)-1].(*ast.ReturnStmt); !isRet {
+				continue
+			}
+			ue, ok := ast.Unparen(ifs.Cond).(*ast.UnaryExpr)
+			if !ok || ue.Op != token.NOT {
+				continue
+			}
+			call, ok := ast.Unparen(ue.X).(*ast.CallExpr)
+			if !ok {
+				continue
+			}
+			c := core.CalleeOf(info, call)
+			if c == nil || c.Name() != "OnlyOne" || len(call.Args) != 2 {
+				continue
+			}
+			l, okl := listOf(call.Args[1])
+			gs := guardSite{typ: rn, method: fd.Name.Name, list: l, listOK: okl, pos: ifs.Pos()}
+			rest := &ast.BlockStmt{List: fd.Body.List[i+1:]}
+			for _, t := range appendedText(info, rest) {
+				gs.decls = append(gs.decls, declaredIn(t.text)...)
+			}
+			sites = append(sites, gs)
+			if i+1 < len(fd.Body.List) {
+				guardedRanges = append(guardedRanges, [2]token.Pos{fd.Body.List[i+1].Pos(), fd.Body.End()})
+			}
+		}
 		ast.Inspect(fd.Body, func(n ast.Node) bool {
 			ifs, ok := n.(*ast.IfStmt)
 			if !ok {
